@@ -9,6 +9,9 @@ import runner
 from framework import Outcome
 
 
+F18 = "F18-map-passive-argument-is-rank-free"
+
+
 class C01:
     id = "C01"
     level = "exploration"
@@ -91,6 +94,34 @@ class C01:
         shape = runner.h64(dataflow.shape_key(prog), order, [e["t"] for e in res.events if e["k"] == "cyc" and e["g"] == 0])
         return Outcome(violation=dict(clause=v[0], detail=v[1]) if v else None, stats=stats, digest=res.digest, nontrivial=n_pairs > 0,
                        sample=sample, shape=shape)
+
+    F18_SCENARIO = ("mode higher_order\nwindow 0 8\nwriter 1 shape=TSD\nwscript 1 0|d={\"removed\":[],\"modified\":{\"1\":100}};;2|d={\"removed\":[],\"modified\":{\"1\":200}}\n"
+                    "writer 2 shape=TS\nwscript 2 0|d=0;;1|d=10;;2|d=20;;3|d=30\nchain 5 src=2 n=2\nmap 10 fn=Add2 d=1 b=5 pb=1\ncons 11 10\n")
+
+    def demonstrate_known(self, k):
+        """F18 lies outside the generated dataflow vocabulary (map_ with a passive(port) argument): one fixed scenario
+        re-demonstrates it on every run - the compiled root graph holds an edge whose producer is ranked after its consumer,
+        and the map_ node is evaluated before that producer in the cycles in which both run."""
+        if k["id"] != F18:
+            return False
+        res = runner.run(self.F18_SCENARIO, san=self.san)
+        wire = [e for e in res.events if e["k"] == "wire"]
+        if not wire:
+            return False
+        labels = [n["label"] for n in wire[0]["graph"]["nodes"]]
+        back = [(a, b) for (a, b, *_rest) in wire[0]["graph"].get("edges", []) if a >= b]
+        if not any(labels[b] == "map_" for a, b in back):
+            return False
+        # and at run time: in one cycle the map_ node runs before the producer it reads
+        order = {}
+        cyc = None
+        for e in res.events:
+            if e["k"] == "cyc" and e["g"] == 0:
+                cyc = e["t"]
+                order[cyc] = []
+            elif e["k"] == "ne" and e["g"] == 0 and cyc is not None:
+                order[cyc].append(e["i"])
+        return any(a in o and b in o and o.index(b) < o.index(a) for o in order.values() for (a, b) in back)
 
     def shrink(self, case):
         if case.get("cyclic"):
